@@ -43,6 +43,28 @@ def extract_block(prog, qname: str, new_name: str, start_pred, n_stmts_pred, par
             break
     if not found:
         raise KeyError(f"extraction from {qname}: block not found (contract attachment lost)")
+    return register_block(prog, qname, new_name, found, params, result, yields_to)
+
+
+def stores_of(stmt):
+    """names a statement may bind, and whether it writes anything else (attributes, subscripts) or leaves the block"""
+    names, other = set(), False
+    for x in ast.walk(stmt):
+        if isinstance(x, ast.Name) and isinstance(x.ctx, (ast.Store, ast.Del)):
+            names.add(x.id)
+        elif isinstance(x, (ast.Attribute, ast.Subscript)) and isinstance(x.ctx, (ast.Store, ast.Del)):
+            other = True
+        elif isinstance(x, (ast.Return, ast.Raise, ast.Break, ast.Continue, ast.Yield, ast.YieldFrom, ast.Global, ast.Nonlocal)):
+            other = True
+    return names, other
+
+
+def reads_of(nodes):
+    return {x.id for n in nodes for x in ast.walk(n) if isinstance(x, ast.Name) and isinstance(x.ctx, ast.Load)}
+
+
+def register_block(prog, qname: str, new_name: str, found, params: list[str], result: str, yields_to: str | None = None):
+    """wrap the given statements (taken from the current AST of `qname`) as `def new_name(params): ...; return result`"""
     body = [copy.deepcopy(s) for s in found]
     if yields_to:
         body = [_yield_rewriter(yields_to).visit(s) for s in body]
